@@ -16,6 +16,7 @@ import (
 	"github.com/goatcms/goatcore/app/gio"
 	"github.com/goatcms/goatcore/app/modules/commonm/commservices"
 	"github.com/goatcms/goatcore/app/modules/pipelinem/pipservices"
+	"github.com/goatcms/goatcore/app/scope"
 	"pgregory.net/rapid"
 	"verif/harness/hx"
 )
@@ -25,7 +26,8 @@ type WTask struct {
 	Locks  []LockEnt `json:"locks"`
 	Wait   []int     `json:"wait,omitempty"`
 	Hold   Delay     `json:"hold"`
-	Before Delay     `json:"before"` // harness delay before the submission
+	Before Delay     `json:"before"`         // harness delay before the submission
+	Fail   bool      `json:"fail,omitempty"` // its body fails after the section (the pipeline's scope is stopped while others wait for resources)
 }
 
 // WCase is the "pip-waitlock" kind.
@@ -48,6 +50,9 @@ func GenWaitLock(rt *rapid.T) WCase {
 			}
 		}
 		c.Tasks = append(c.Tasks, t)
+	}
+	if hx.Chance(rt, 35, "failing") {
+		c.Tasks[hx.Uniform(rt, len(c.Tasks), "which")].Fail = true
 	}
 	return c
 }
@@ -102,6 +107,13 @@ func runWaitLock(c WCase) hx.Verdict {
 			mu.Unlock()
 		})
 	}
+	anyFail := false
+	for i, t := range c.Tasks {
+		if t.Fail {
+			anyFail = true
+			b.failing.Store(fmt.Sprintf("w%d", i), true)
+		}
+	}
 	b.pending.Add(1) // released when every task is known to be over
 	type res struct {
 		refused int
@@ -133,6 +145,9 @@ func runWaitLock(c WCase) hx.Verdict {
 				Wait:       wait,
 			})
 			if err != nil {
+				if anyFail {
+					continue // the pipeline's scope may already be done: later submissions may be refused
+				}
 				done <- res{refused: i, err: err}
 				return
 			}
@@ -173,16 +188,73 @@ func runWaitLock(c WCase) hx.Verdict {
 		return hx.Fail("no-deadlock", "tasks with lock maps and wait lists: after %v the driver is still in %v; tasks that never got their turn: %s",
 			Watchdog, phase.Load(), strings.Join(stuck, "; "))
 	}
+	if anyFail {
+		// the pipeline failed, possibly while tasks were waiting for resources. Whatever became of
+		// them, the resources must be free again: a task of ANOTHER pipeline that names every
+		// resource for writing gets its turn.
+		v.Label("pip-waitlock:pipeline-failed")
+		all := commservices.LockMap{}
+		for _, n := range c.Names {
+			all[n] = commservices.LockRW
+		}
+		scp2 := scope.New(scope.Params{})
+		ran := make(chan struct{}, 1)
+		b.sections.Store("z", func() { ran <- struct{}{} })
+		zdone := make(chan error, 1)
+		b.pending.Add(1)
+		go func() {
+			err := b.deps.Runner.Run(pipservices.Pip{
+				Context: pipservices.PipContext{
+					In:    gio.NewInput(strings.NewReader(probeCommand + " --id=z")),
+					Out:   gio.NewNilOutput(),
+					Err:   gio.NewNilOutput(),
+					Scope: scp2,
+					CWD:   b.cwd,
+				},
+				Name:       "z",
+				Namespaces: b.ns,
+				Sandbox:    "self",
+				Lock:       all,
+				Wait:       []string{},
+			})
+			if err == nil {
+				if tm2, e2 := b.deps.TasksUnit.FromScope(scp2); e2 == nil {
+					if t, ok := tm2.Get("z"); ok {
+						t.Wait()
+					}
+				}
+			}
+			zdone <- err
+		}()
+		select {
+		case err := <-zdone:
+			b.pending.Add(-1)
+			if err != nil {
+				return hx.Fail("accepted", "Runner.Run refused a task of a fresh pipeline after another pipeline had failed: %v", err)
+			}
+			select {
+			case <-ran:
+			default:
+				return hx.Fail("turn", "a task of a fresh pipeline finished without executing its body after another pipeline had failed")
+			}
+			scp2.Close()
+		case <-time.After(Watchdog):
+			return hx.Fail("no-deadlock", "a pipeline failed while some of its tasks were waiting for resources; afterwards a task of another pipeline that names the same resources (%s) did not get its turn within %v", showMap(all), Watchdog)
+		}
+	}
 	defer b.close()
 	// every task had its turn; conflicting tasks never inside together
 	sharedRes := false
 	for i := range c.Tasks {
 		if spans[i].out == 0 {
+			if anyFail {
+				continue // cancelled with its pipeline
+			}
 			return hx.Fail("turn", "task w%d finished without executing its body", i)
 		}
 		for j := 0; j < i; j++ {
 			_, nconf := relate(maps[i], maps[j])
-			if nconf > 0 && spans[i].in < spans[j].out && spans[j].in < spans[i].out {
+			if nconf > 0 && spans[j].out != 0 && spans[i].in < spans[j].out && spans[j].in < spans[i].out {
 				return hx.Fail("exclusion", "tasks w%d (%s) and w%d (%s) were inside at the same time", j, showMap(maps[j]), i, showMap(maps[i]))
 			}
 		}
